@@ -197,6 +197,22 @@ func (e *specEnv) callExpr(n *ECall, hint types.Type) sv {
 		argn(1)
 		return sv{Val: Val{t: e.heldTerm(n.Fun, n.Args[0]), typ: tBool}}
 	}
+	if n.Fun == "blockingAcquisitions" {
+		// blockingAcquisitions(Struct.field): number of potentially blocking acquisitions of locks of
+		// that class (objects not allocated by the function itself) since the function was entered
+		argn(1)
+		f, ok := n.Args[0].(*EField)
+		id, ok2 := f.X.(*EIdent)
+		if !ok || !ok2 {
+			sfail("blockingAcquisitions(Struct.field)")
+		}
+		pn := ""
+		if p, ok := u.eng.PkgByPath[e.pkgPath]; ok {
+			pn = p.Name + "."
+		}
+		bk := u.regKey("Blk."+pn+id.Name+"."+f.Name, "Int")
+		return sv{Val: Val{t: "(- " + e.st.get(u, bk) + " " + e.old.get(u, bk) + ")", typ: tInt}}
+	}
 	if n.Fun == "visited" {
 		// visited(k): key k has been produced by the nearest enclosing map range loop
 		argn(1)
